@@ -18,8 +18,12 @@ RULES = {
     "R2": "every rejection point counted by R1 is either feasible or discharged by the frozen infeasibility table "
     "(guards backed by a C01/C11 invariant or by a dominating test), one reason per entry; a table entry that no "
     "longer matches anything is reported",
+    "R3": "the validation sees what the commit sees (shared rule S13): a parameter declared as an Iterable is iterated at one point "
+    "only, or is first rebound to a materialised copy (`nodes = tuple(nodes)`) - the library's validate-then-commit mutators walk "
+    "their argument twice, and a generator handed to `frozenset(nodes)` is empty when the validation loop iterates `nodes` "
+    "again: nothing is validated, the commit loop runs on unchecked nodes and rejects half-way",
 }
-FLOORS = {"R1": 45, "R2": 10}
+FLOORS = {"R1": 45, "R2": 10, "R3": 15}
 EXPLANATION = (
     "Interprocedural effect summaries (writes on non-fresh objects, rejection points with their path conditions, "
     "through the type-resolved call graph incl. property setters, __setitem__/__delitem__ and the stdlib "
@@ -313,7 +317,37 @@ def analyse_mutator(ef: Effects, f: FuncInfo, used: dict, own: frozenset = froze
     return [(m, c, list(u.values()), n) for m, c, u, n in by_site.values()]
 
 
+def rule_r3(ctx):
+    from ..shared import iterable_consumed_twice
+
+    n = 0
+    for m in ctx.repo.pkg_modules():
+        if not (m.name in ("onnx_ir._core", "onnx_ir._graph_containers", "onnx_ir._linked_list", "onnx_ir._cloner") or m.name.startswith("onnx_ir._convenience")):
+            continue
+        for f in m.all_funcs:
+            if isinstance(f.node, ast.Lambda):
+                continue
+            a = f.node.args
+            its = [x.arg for x in a.posonlyargs + a.args + a.kwonlyargs if x.annotation is not None and any(w in norm(x.annotation) for w in ("Iterable", "Iterator"))]
+            if not its:
+                continue
+            n += len(its)
+            hits = iterable_consumed_twice(f)
+            for p_, e1, e2 in hits:
+                ctx.check("R3", f"{f.local}: `{p_}` is iterated once (or materialised first)", False, f, e2,
+                          f"`{p_}` is declared an Iterable and is consumed by `{short(norm(e1))}` and again by `{short(norm(e2))}` without being rebound to a "
+                          "materialised copy in between: for a generator argument the second pass is empty - a validation loop validates nothing and "
+                          "the commit then rejects after it has changed the graph (or an unsafe removal is not rejected at all)",
+                          how="consumption points of Iterable-annotated parameters on the CFG; rebinding `p = tuple(p)` cuts the path",
+                          construct=f"{p_} consumed twice in {f.local}")
+            for p_ in its:
+                if not any(h[0] == p_ for h in hits):
+                    ctx.ob("R3", f"{f.local}: `{p_}` is iterated at one point or materialised first", True, nontrivial=False, how="S13")
+    ctx.require(n >= 15, f"only {n} Iterable parameters found in the IR core")
+
+
 def run(ctx):
+    rule_r3(ctx)
     ef = ctx._shared.get("effects")
     if ef is None:
         ef = ctx._shared["effects"] = Effects(ctx.repo, ctx.typer, tier4=(ctx.tier == "thorough"))
